@@ -8,6 +8,7 @@ require (
 	github.com/holiman/uint256 v1.2.4
 	github.com/sirupsen/logrus v1.9.3
 	github.com/wk8/go-ordered-map/v2 v2.1.8
+	google.golang.org/protobuf v1.36.6
 	lukechampine.com/blake3 v1.2.1
 	pgregory.net/rapid v1.3.0
 )
@@ -96,7 +97,6 @@ require (
 	golang.org/x/exp v0.0.0-20231006140011-7918f672742d // indirect
 	golang.org/x/sys v0.33.0 // indirect
 	golang.org/x/text v0.25.0 // indirect
-	google.golang.org/protobuf v1.36.6 // indirect
 	gopkg.in/yaml.v3 v3.0.1 // indirect
 	lukechampine.com/uint128 v1.3.0 // indirect
 	modernc.org/mathutil v1.6.0 // indirect
